@@ -13,7 +13,7 @@ import (
 		"time"
 )
 
-const incrementalTimeoutMs = 2500
+const incrementalTimeoutMs = 5000
 const chunkSize = 24
 
 type SolverCfg struct {
